@@ -215,7 +215,7 @@ def jobs(tier):
     for (d, lmin, lmax, v, boundary, out_len, norm, ref_kind) in cfgs:
         c = cap if lmax == 2 else 60
         if not boundary:
-            c = c - 18
+            c = 27 - 18  # both tiers: without boundary points the grids are small, a cap of 15 means 17504 paths (1230 s) per job
         js.append(Job('stop[d=%d,l=%d-%d,v=%d,%s,out=%d,norm=%s,ref=%s]' % (d, lmin, lmax, v, 'b' if boundary else 'nb', out_len, 'inf' if norm == np.inf else '1', ref_kind),
                       stop_rules, {'d': d, 'lmin': lmin, 'lmax': lmax, 'version': v, 'boundary': boundary, 'out_len': out_len, 'norm': norm, 'ref_kind': ref_kind,
                                    'cap': c, 'pool': pool},
